@@ -171,8 +171,130 @@ let fill_family (dir : string) =
     | _ -> failwith ("bad line: " ^ line)) lines;
   close_out oc
 
+(* ---------------- family "frames": trace acceptance ---------------- *)
+let bar_of (tok : string) : Mpb_model.z =   (* "b3" -> 3 *)
+  cz (String.sub tok 1 (String.length tok - 1))
+
+let parse_item (tok : string) : item list =
+  let bad = [IText (czi (-1), czi 0, czi 0)] in
+  match String.split_on_char ':' tok with
+  | ["r"; i; cur; total; flag; deco; _w] ->
+      let ok = (flag = "R" && deco = "run") || (flag = "C" && deco = "DONE") || (flag = "A" && deco = "ABRT") in
+      if ok then [IRow (cz i, cz cur, cz total, flag = "C", flag = "A")] else bad
+  | ["x"; i; j] -> [IXRow (cz i, cz j)]
+  | ["t"; w; sq; l] -> [IText (cz w, cz sq, cz l)]
+  | _ ->
+      if String.length tok > 4 && String.sub tok 0 4 = "cuu=" then
+        let n = int_of_string (String.sub tok 4 (String.length tok - 4)) in
+        if n > 0 then [ICuu (czi n)] else []
+      else bad
+
+type barcfg = { c_prio : Mpb_model.z option; c_xrows : Mpb_model.z; c_xrev : bool }
+
+let frames_family (dir : string) =
+  let lines = read_lines (Filename.concat dir "cases.txt") in
+  let oc = open_out (Filename.concat dir "model.txt") in
+  let k = ref 0 in
+  let st = ref None in
+  let cfgs : (int, barcfg) Hashtbl.t = Hashtbl.create 16 in
+  let nev = ref 0 and nframes = ref 0 in
+  let rejected = ref false in
+  let late_ok = ref true in
+  let finish () =
+    (match !st with
+     | None -> ()
+     | Some _ ->
+         if not !rejected then
+           Printf.fprintf oc "%d %s events=%d frames=%d\n" !k (if !late_ok then "ACCEPT" else "LATEBAD") !nev !nframes);
+    st := None in
+  let feed seq (e : ev) (line : string) =
+    match !st with
+    | None -> ()
+    | Some s when not !rejected ->
+        incr nev;
+        (match step s e with
+         | Some s' -> st := Some s'
+         | None ->
+             rejected := true;
+             let fifo = String.concat "," (List.map (function
+               | QPush (b, sy) -> Printf.sprintf "push(b%s,%s)" (zs b) (bs sy)
+               | QSync -> "sync" | QIter -> "iter" | QOp -> "op") s.fifo) in
+             let heap = String.concat "," (List.map zs s.heap) in
+             let popped = String.concat "," (List.map zs s.popped) in
+             let ph = (match s.ph with Idle -> "idle" | Rendering (_, _, rows, n, pc, pu) ->
+               Printf.sprintf "rendering(rows=%s,pop=%s,pushes=%d)" (zs n) (zs pc) (List.length pu)) in
+             Printf.fprintf oc "%d REJECT seq=%s line=[%s] heap=[%s] fifo=[%s] popped=[%s] phase=%s hsync=%s hlen=%s dirty=%s\n"
+               !k seq line heap fifo popped ph (bs s.hsync) (zs s.hlen) (bs s.hdirty))
+    | Some _ -> () in
+  List.iter (fun line ->
+    match tokens line with
+    | "case" :: kk :: mode :: _q :: _width :: pop :: delay :: _ ->
+        finish ();
+        k := int_of_string kk; nev := 0; nframes := 0; rejected := false; late_ok := true;
+        Hashtbl.reset cfgs;
+        st := Some (init_cst (sb pop) (mode = "auto") (sb delay))
+    | ["bar"; i; _total; prio; _rm; _nopop; _after; xrows; xrev; _syncw] ->
+        Hashtbl.replace cfgs (int_of_string i)
+          { c_prio = (if prio = "-1000000" then None else Some (cz prio)); c_xrows = cz xrows; c_xrev = sb xrev }
+    | ["end"] -> finish ()
+    | "t" :: seq :: kind :: rest ->
+        let f e = feed seq e line in
+        (match kind, rest with
+         | "CL_OP", [b; "Incr"; n] -> f (CL_OP (bar_of b, IncrInt64 (cz n)))
+         | "CL_OP", [b; "SetTotal"; t; c] -> f (CL_OP (bar_of b, SetTotal (cz t, sb c)))
+         | "CL_OP", [b; "Abort"; d] -> f (CL_OP (bar_of b, Abort (sb d)))
+         | "CL_OP", [b; "SetCur"; c] -> f (CL_OP (bar_of b, SetCurrent (cz c)))
+         | "CL_OP", [b; "SetRefill"; c] -> f (CL_OP (bar_of b, SetRefill (cz c)))
+         | "CL_OP", [b; "Enable"] -> f (CL_OP (bar_of b, EnableTriggerComplete))
+         | "RET_OP", [b; cur; comp; ab] -> f (RET_GET (bar_of b, cz cur, sb comp, sb ab))
+         | "CL_PRIO", [b; p; lazy_] -> f (CL_PRIO (bar_of b, cz p, sb lazy_))
+         | "CL_WRITE", [w; sq; nl] -> f (CL_WRITE (cz w, cz sq, cz nl))
+         | "CL_CANCEL", [] -> f CL_CANCEL
+         | "CT_OP", [] -> f CT_OP
+         | "CT_ADD", [b; after; id; prio; total; rm; nopop; trig] ->
+             let bi = int_of_string (String.sub b 1 (String.length b - 1)) in
+             let cfg = (try Hashtbl.find cfgs bi with Not_found -> { c_prio = None; c_xrows = Z0; c_xrev = false }) in
+             let a = int_of_string (String.sub after 6 (String.length after - 6)) in
+             f (CT_ADD (czi bi, cz id, cz prio, cz total, cfg.c_prio, (if a < 0 then None else Some (czi a)),
+                        sb rm, sb nopop, sb trig, cfg.c_xrows, cfg.c_xrev))
+         | "CT_IO", [] -> f CT_IO
+         | "CT_DELAYEND", [] -> f CT_DELAYEND
+         | "CT_RENDERBEGIN", [] -> f CT_RENDERBEGIN
+         | "CT_RENDERSIZE", [w; h; _tty; _err] -> f (CT_RENDERSIZE (cz w, cz h))
+         | "CT_FLUSHBAR", [b; sh; nrows; rm; nopop; _err] -> f (CT_FLUSHBAR (bar_of b, cz sh, cz nrows, sb rm, sb nopop))
+         | "CT_FRAME", [n; pc] -> f (CT_FRAME (cz n, cz pc))
+         | "OUT", items -> incr nframes; f (OUT (List.concat_map parse_item items))
+         | "CT_DONE", _ -> f CT_DONE
+         | "CT_EXIT", [] -> f CT_EXIT
+         | "HM_REQ", [b; "1"; dsync; hl; cs; cl] -> f (HM_PUSH (bar_of b, sb dsync, cz hl, sb cs, cz cl))
+         | "HM_REQ", ["0"; hl; cs; cl] -> f (HM_SYNC (cz hl, sb cs, cz cl))
+         | "HM_REQ", ["2"; haspop; hl; _; _] -> f (HM_ITERREQ (sb haspop, cz hl))
+         | "HM_REQ", [b; "3"; p; lazy_; idx; hl; _; _] -> f (HM_FIX (bar_of b, cz p, sb lazy_, cz idx, cz hl))
+         | "HM_REQ", ["4"; hl; cs; cl] -> f (HM_STATE (cz hl, sb cs, cz cl))
+         | "HM_REQ", ["5"; hl; _; _] -> f (HM_END (cz hl))
+         | "HM_POP", [b; p] -> f (HM_POP (bar_of b, cz p))
+         | "BAR_OP", [b; cur; tot; rf; tr; ab; rm; sh] -> f (BAR_OP (bar_of b, cz cur, cz tot, cz rf, sb tr, sb ab, sb rm, cz sh))
+         | "BAR_RENDER", [b; cur; tot; rf; ab; comp; sh; _w] -> f (BAR_RENDER (bar_of b, cz cur, cz tot, cz rf, sb ab, sb comp, cz sh))
+         | "BAR_EXIT", [b; cur; tot; ab] -> f (BAR_EXIT (bar_of b, cz cur, cz tot, sb ab))
+         | "FINAL", [b; cur; comp; ab; run] -> f (FINAL (bar_of b, cz cur, sb comp, sb ab, sb run))
+         | "NOTIFY", [] -> f (NOTIFY [])
+         | "NOTIFY", [ids] -> f (NOTIFY (List.map cz (String.split_on_char ',' ids)))
+         | "LATE_WRITE", [n; e] -> if not (n = "0" && e = "1") then late_ok := false
+         | "LATE_ADD", [n; e] -> if not (n = "1" && e = "1") then late_ok := false
+         | "HANG", _ -> if not !rejected then (rejected := true; Printf.fprintf oc "%d HANG %s\n" !k (String.concat " " rest))
+         | ("CL_ADD" | "RET_ADD" | "RET_PRIO" | "RET_WRITE" | "CL_TICK" | "RET_TICK" | "CL_DELAYEND" | "CL_WAIT"
+           | "RET_WAIT" | "LS_DONE" | "HM_ITER" | "HM_ITERDROP" | "HM_POPDROP" | "BAR_TRIGGER" | "EARLY_DECIDE"
+           | "EARLY_REQ" | "EARLY_EXIT" | "WC_SENT" | "WC_GOT" | "DIST_COLLECTED" | "DIST_DROP" | "DIST_DONE"
+           | "DBG" | "END" | "CT_RENDERERR" | "OUTERR"), _ -> ()
+         | _ -> failwith ("frames: unknown trace line: " ^ line))
+    | [] -> ()
+    | _ -> failwith ("bad line: " ^ line)) lines;
+  finish ();
+  close_out oc
+
 let () =
   match Array.to_list Sys.argv with
   | [_; "bar"; dir] -> bar_family dir
   | [_; "fill"; dir] -> fill_family dir
+  | [_; "frames"; dir] -> frames_family dir
   | _ -> prerr_endline "usage: mpbmodel <family> <dir>"; exit 2
